@@ -10,7 +10,9 @@ RULE = ("R cases over valid / mid-document / mutated / random / adversarial stre
         "bound 4*len+64 calls per N), successful items <= 2*len + 16, after a None with the source exhausted every further next() is None, every "
         "reported read error carries a code the script injected, in order.  non-trivial = >= 2 result tokens; distinct = distinct case line")
 TRUSTED = TRUSTED_BASE
-ASSUMPTIONS = ASSUME_BASE + ["stack overflow on pathologically deep nesting of buffered masters and allocation failure are runtime behaviours the model cannot exhibit (harness observes a crash as CRASH)"]
+ASSUMPTIONS = ASSUME_BASE + ["stack depth and allocation failure are runtime behaviours the model cannot exhibit; the harness observes them as CRASH: deep nesting below a "
+                             "buffered master is exercised by the K cases (known finding D30); allocation failure with the size limit removed on corrupt input is "
+                             "documented by the crate (at your own risk) and not generated"]
 EXHAUSTIVE = {}
 
 
@@ -65,7 +67,25 @@ def generate(rng, tier):
         lim = rng.choice(["def", "none", "100000", "3"]) if (kind == "valid" and "t" not in ops) else rng.choice(["100000", "100000", "6", "0", "300"])
         cfg = E.cfg_str(allow=(0 if lim in ("def", "none") else rng.randrange(8)), maxs=lim, buffered=rand_buffered(rng, sp, 0.4), cap=str(rng.choice([0, 1, 2, 3, 5, 8, 15, 16, 17, 33, 64])) if rng.random() < 0.7 else "def", eof=rng.choice([0, 1]))
         cases.append(Case("R %s %s %s %s %s" % (sp.s(), cfg, scr, data.hex() or "-", ops), kind))
+    # recursion depth: valid documents of recursive known-size masters nested N deep, with and without that master (or the root) buffered,
+    # run on a thread with the stack of a default main thread (K command)
+    rs = E.rec_spec()
+    for depth, buffered in ([(300, (0x4301,)), (2000, ()), (20000, ()), (3000, (0x4301,)), (20000, (0x4301,)), (40000, (0x81,))] if thorough
+                            else [(300, (0x4301,)), (20000, ()), (20000, (0x4301,))]):
+        body = b""
+        for _ in range(depth):
+            body = E.id_bytes(0x4301) + E.size_vint(len(body)) + body
+        data = E.id_bytes(0x81) + E.size_vint(len(body)) + body
+        cases.append(Case("K %s %s - %s N" % (rs.s(), E.cfg_str(maxs="def", buffered=buffered), data.hex()), "deep", {"depth": depth}))
     return cases
+
+
+def known_class(case, outs):
+    """D30: the recursion read_next <-> buffer_master (and roll_up_children) is as deep as the nesting of masters below a buffered master"""
+    f = case.lines[0].split(" ")
+    if f[0] == "K" and ",b-," not in f[2] and case.meta.get("depth", 0) >= 1000 and any(o.startswith("CRASH") for o in outs):
+        return "deep_buffered_nesting"
+    return None
 
 
 def nontrivial(case, model_out):
